@@ -294,7 +294,7 @@ def row_disjuncts(t, row):
             break
     if inner is None:
         inner = guards[-1]
-    ctx = [g for g in guards if g is not inner]
+    ctx = [g for g in guards if g[0] is not inner[0]]
     d = dnf(subst(inner[0], t.defs), inner[1])
     ctx_atoms = []
     for (c, p) in ctx:
@@ -346,3 +346,73 @@ def derive_params(f, region):
                 cur |= s
                 changed = True
     return der
+
+
+def precedence(prog, f, t):
+    """First illegal argument wins: no store of an error code into info is reachable while info may already hold one.
+
+    May-analysis over the CFG restricted to the screening region (entry .. the error-exit test): `info = 0` and the true edge of
+    `info == 0` (false edge of `info != 0` / `info`) clear the fact, a store of a non-zero code sets it.  Returns
+    (number of code stores examined, [(store node, earlier store node)]).
+    """
+    cfg = prog.cfg(f)
+    info_id = t.info_id
+    stop = t.errblock.c[0]
+
+    def stores(ast):
+        out = []
+        for n in ast.walk():
+            if n.k == 'Assign' and is_info_lvalue(n.c[0], info_id):
+                out.append(n)
+        return out
+
+    def zero_test(ast):
+        """+1: true edge means info == 0;  -1: false edge means info == 0;  0: not an info test"""
+        c = strip(ast)
+        if c.k == 'Binary' and c.a['op'] in ('==', '!=') and const_value(c.c[1]) == 0:
+            l = strip(c.c[0])
+            if l.k == 'Unary' and l.a['op'] == '*':
+                l = strip(l.c[0])
+            if l.k == 'Ref' and l.a.get('id') == info_id:
+                return 1 if c.a['op'] == '==' else -1
+            return 0
+        if is_info_test(c, info_id):
+            return -1
+        return 0
+
+    IN = {cfg.entry.id: None}       # None = info holds no code; else the earlier store node
+    work = [cfg.entry.id]
+    bad = {}
+    seen_stores = set()
+    while work:
+        nid = work.pop()
+        node = cfg.nodes[nid]
+        st = IN[nid]
+        if node.ast is not None and node.kind == 'cond' and node.ast is stop:
+            continue
+        if node.ast is not None and node.kind in ('stmt', 'return'):
+            for s in stores(node.ast):
+                v = const_value(s.c[1])
+                if v == 0:
+                    st = None
+                else:
+                    seen_stores.add(id(s))
+                    if st is not None and id(s) not in bad:
+                        bad[id(s)] = (s, st)
+                    st = s
+        zt = zero_test(node.ast) if (node.kind == 'cond' and node.ast is not None) else 0
+        for (succ, lab) in node.succ:
+            out = st
+            if zt == 1 and lab is True:
+                out = None
+            elif zt == -1 and lab is False:
+                out = None
+            elif zt == 1 and lab is False and st is None:
+                out = st
+            if succ not in IN:
+                IN[succ] = out
+                work.append(succ)
+            elif IN[succ] is None and out is not None:
+                IN[succ] = out
+                work.append(succ)
+    return len(seen_stores), sorted(bad.values(), key=lambda p: p[0].line)
